@@ -584,6 +584,30 @@ func c18Messages(r *mon.Run) {
 			d.VResponse = add(d.VResponse, bigOne)
 		}
 		c18ListTrip(r, desc+" (corrupted v_response)", bad, pks, ctx, nonce, i%5 == 0)
+		// fields that are not part of the encoding (filled in by the verifier itself) hold something else in the sender's
+		// object: the verdict on the object and on its re-read copy must be the same
+		if d0, ok := list[0].(*gabi.ProofD); ok {
+			if len(d0.RangeProofs) > 0 {
+				alt := cloneList(list)
+				for _, l := range alt[0].(*gabi.ProofD).RangeProofs {
+					for k, q := range l {
+						if k%2 == 0 {
+							q.MResponse = add(d0.AResponses[2], bi(5000))
+						} else {
+							q.MResponse = bi(0)
+						}
+					}
+				}
+				c18ListTrip(r, desc+" (range proofs hold another untransmitted m response)", alt, pks, ctx, nonce, i%5 == 0)
+			}
+			if d0.NonRevocationProof != nil {
+				alt := cloneList(list)
+				nr := alt[0].(*gabi.ProofD).NonRevocationProof
+				nr.Nu = bi(4)
+				nr.Challenge = bi(77)
+				c18ListTrip(r, desc+" (non-revocation proof holds another untransmitted nu and challenge)", alt, pks, ctx, nonce, i%5 == 0)
+			}
+		}
 		// issuance commitment message
 		if i%4 == 1 {
 			icm := cb.CreateIssueCommitmentMessage(list)
